@@ -75,7 +75,7 @@ func strDec(b []byte) *Sx {
 
 // histObs runs a sequence of read-only operations on one packet value.
 func histObs(p rtcp.Packet, ops []*Sx) *Sx {
-	_, isXR := p.(*rtcp.ExtendedReport)
+	isXR := containsXR(p)
 	results := make([]*Sx, 0, len(ops))
 	seen := map[string]string{}
 	consistent := true
@@ -132,6 +132,22 @@ func histObs(p rtcp.Packet, ops []*Sx) *Sx {
 		results = append(results, res)
 	}
 	return sl(sl(sy("results"), sl(results...)), sl(sy("consistent"), sbool(consistent)), sl(sy("final"), packetSx(p)))
+}
+
+// containsXR: ExtendedReport.Marshal fills in its blocks' header fields (documented), so String() of a
+// packet holding an XR may legitimately differ before and after the first Marshal.
+func containsXR(p rtcp.Packet) bool {
+	switch x := p.(type) {
+	case *rtcp.ExtendedReport:
+		return true
+	case *rtcp.CompoundPacket:
+		for _, q := range *x {
+			if containsXR(q) {
+				return true
+			}
+		}
+	}
+	return false
 }
 
 func inbufObs(b []byte) *Sx {
